@@ -32,6 +32,9 @@ RULE = ("compounds: Hypothesis draws a flat {atom: count} dict (1-8 distinct ato
         "reference; arguments must not be modified by the library). "
         "sweeps: every atom with data x 6 wavelengths through atom.neutron.scattering/.sld and the one-atom "
         "compound; every tabulated atom at every node, every interval midpoint and beyond both ends; "
+        "both given: for neutron_scattering and neutron_sld (whose docstrings say 'if energy is specified then wavelength "
+        "is ignored') energy= together with an independent, equal, scalar or same-shape vector wavelength= is judged at "
+        "the energy's wavelength with the energy's shape. "
         "formula objects: the compound handed over as a Formula object - without density, with a preset density "
         "(density=/natural_density= at construction, '@' tag, attribute assignment), a single-atom formula with the "
         "auto-filled density, a mix_by_weight/mix_by_volume mixture (composition and density as served) - called with "
@@ -104,7 +107,49 @@ def check_compound(ctx, v):
         ng.check_shape("c03:neutron_sld", o, s, shape, case)
     ng.compare_outputs("c03:neutron_sld", dict(zip(OUTPUTS[:3], sld)), comp, rho, lams, case,
                        "edep" if edep else "ordinary", outputs=OUTPUTS[:3], rel=rel)
+    both_given(ctx, v, case, comp, edep)
     repeat_calls(ctx, v, case, comp, shape, wkw, edep)
+
+
+def both_given(ctx, v, case, comp, edep):
+    """neutron_scattering and neutron_sld document 'If energy is specified then wavelength is ignored':
+    with BOTH energy= and an unrelated (or the equivalent) wavelength= the result is the one of the
+    energy's wavelength and has the energy argument's shape.  (Formula.neutron_sld, D2O_sld/D2O_match
+    and neutron_composite_sld state no precedence: not generated for them.)"""
+    b = v.get("both")
+    if not b:
+        return
+    E = ng.env()
+    pt, np, R = E["pt"], E["np"], E["ref"]
+    w = v["wl"]
+    form = w["form"]
+    vals, lams = ng.wl_values(form, "energy", list(w["lams"])[:1] if form in ng.SCALAR_FORMS else list(w["lams"]))
+    earg, shape = ng.wl_object(form, vals, w.get("shape"))
+    n = len(vals)
+    other = [b["lams"][i % len(b["lams"])] for i in range(max(n, 1))]
+    if b["wform"] == "equal":
+        other = list(lams)
+    if b["wform"] == "scalar":
+        warg = other[0]
+    elif shape == ():
+        warg = list(b["lams"]) if b["wform"] == "vector" else other[0]      # vector wavelength, scalar energy
+    else:
+        warg = np.array(other, dtype=float).reshape(shape)
+    obj0 = ng.build_compound(v["comp"])[0]
+    rho = v["rho2"]
+    tag = "edep" if edep else "ordinary"
+    rel = ng.wl_rel(form)
+    ctx.count("both-given:" + b["wform"] + (":energy-vector" if shape != () else ":energy-scalar"))
+    with unchanged("c03", case, compound=obj0 if isinstance(obj0, dict) else None, energy=earg, wavelength=warg):
+        got = ng.flatten(pt.neutron_scattering(obj0, density=rho, energy=earg, wavelength=warg))
+    for o in OUTPUTS:
+        ng.check_shape("c03:energy-and-wavelength", o, got[o], shape, case)
+    ng.compare_outputs("c03:energy-and-wavelength", got, comp, rho, lams, case, tag, rel=rel)
+    sld = pt.neutron_sld(obj0, density=rho, wavelength=warg, energy=earg)
+    for o, x in zip(OUTPUTS[:3], sld):
+        ng.check_shape("c03:energy-and-wavelength:neutron_sld", o, x, shape, case)
+    ng.compare_outputs("c03:energy-and-wavelength:neutron_sld", dict(zip(OUTPUTS[:3], sld)), comp, rho, lams, case, tag,
+                       outputs=OUTPUTS[:3], rel=rel)
 
 
 def repeat_calls(ctx, v, case, comp, shape, wkw, edep):
@@ -460,7 +505,10 @@ def strat_compound(depth, forms=None):
     kw = {} if forms is None else {"forms": forms}
     return st.fixed_dictionaries({"comp": ng.compound(depth), "dens": ng.density_arg(), "wl": ng.wavelength_arg(**kw),
                                   "rho2": ng.density_value(),
-                                  "lams2": st.lists(ng.one_wavelength(), min_size=1, max_size=6)})
+                                  "lams2": st.lists(ng.one_wavelength(), min_size=1, max_size=6),
+                                  "both": st.one_of(st.none(), st.fixed_dictionaries({
+                                      "wform": st.sampled_from(["scalar", "vector", "vector", "equal"]),
+                                      "lams": st.lists(ng.one_wavelength(), min_size=1, max_size=6)}))})
 
 
 def task_compounds(ctx, n, depth=2):
